@@ -92,6 +92,9 @@ var _ = strings.HasPrefix
 //@ before_stmt [C11,C07] "Tokdef.IdentifyList = append(Tokdef.IdentifyList, id)" id.IDTyp == TERMID && id.Tag == Tag
 //@ after_stmt [C11] "value = intVar" value == atoi(p.current.Value)
 //@ before_stmt [C11] "id.Value = value" value == 0 || (p.current.Kind == Number && value == atoi(p.current.Value))
+// every name (and every character literal) of a %token line is recorded, with the value written on THIS line - also when the name is already known
+// (a later `%token NAME 100` is how a number is attached to a token introduced earlier)
+//@ loop 0: end_of_body [C11] len(Tokdef.IdentifyList) == at_head(len(Tokdef.IdentifyList)) + 1
 //@ loop 0: invariant REP(p) && CUR(p) && p.peekCount == 0 && fetched > old(fetched)
 //@ loop 0: invariant p.current.Kind == Charater ==> len(p.current.Value) >= 1
 //@ loop 0: decreases spec_E() + 1 - fetched
@@ -109,12 +112,14 @@ var _ = strings.HasPrefix
 //@ loop 0: decreases spec_E() + 2 - (fetched - p.peekCount)
 
 //@ func (*parser).parseRule
-//@ props C11 C13
+//@ props C11 C13 C04 C07 C01
 //@ use STREAM
 //@ results rules
 //@ requires toklst != nil && REP(p) && CUR(p) && p.peekCount <= 1 && SLOT1(p)
 //@ ensures [C13] REP(p) && TOK(p) && p.lex == old(p.lex) && (!isnil(rules) ==> CUR(p) && p.peekCount <= 1 && SLOT1(p) && fetched - p.peekCount > old(fetched - p.peekCount))
 //@ after_stmt [C11] "id := Idendity{" id.Value == int(rune_at(p.current.Value, 0))
+// every alternative starts as a fresh rule of the same left-hand side: no %prec symbol and no right-hand side carried over from the previous alternative
+//@ after_stmt [C04,C07,C01] "rightpart = make([]RightSymOrAction, 0)" rule.PrecSym == "" && rule.LeftPart == Leftpart && len(rule.RightPart) == 0 && len(rightpart) == 0
 //@ loop 0: invariant REP(p) && CUR(p) && p.peekCount <= 1 && SLOT1(p) && fetched - p.peekCount > old(fetched - p.peekCount)
 //@ loop 0: invariant p.lex == old(p.lex)
 //@ loop 0: decreases spec_E() + 2 - (fetched - p.peekCount)
